@@ -13,6 +13,8 @@ import (
 
 	"github.com/tigerwill90/fox"
 
+	vs "github.com/tigerwill90/fox/verifsync"
+
 	"verifharness/fx"
 	"verifharness/mc"
 )
@@ -371,18 +373,141 @@ func run(c *mc.Ctx, r *mc.Result) {
 	}
 }
 
+// ---------------------------------------------------------------------------------------------
+// concurrent: two requests inside the same Logger instance
+// ---------------------------------------------------------------------------------------------
+
+type concReq struct {
+	method, host, path, remote string
+	status                     int
+	location                   string
+}
+
+var concReqs = []concReq{
+	{"GET", "a.example", "/a", "10.0.0.1:1111", 201, ""},
+	{"POST", "b.example", "/b", "10.0.0.2:2222", 503, ""},
+	{"GET", "c.example", "/r", "10.0.0.3:3333", 302, "/elsewhere"},
+	{"PUT", "d.example", "/nf", "10.0.0.4:4444", 404, ""},
+}
+
+// stepCapture is a slog handler with scheduling points in the calls the Logger makes.
+type stepCapture struct{ recs *[]rec }
+
+func (c stepCapture) Enabled(context.Context, slog.Level) bool { vs.Step("slog.Enabled"); return true }
+func (c stepCapture) Handle(_ context.Context, r slog.Record) error {
+	vs.Step("slog.Handle")
+	m := map[string]string{}
+	r.Attrs(func(a slog.Attr) bool {
+		if a.Key != "latency" { // wall-clock dependent
+			m[a.Key] = a.Value.String()
+		}
+		return true
+	})
+	*c.recs = append(*c.recs, rec{level: r.Level, msg: r.Message, attrs: m})
+	return nil
+}
+func (c stepCapture) WithAttrs([]slog.Attr) slog.Handler { return c }
+func (c stepCapture) WithGroup(string) slog.Handler      { return c }
+
+func concScenario(i, j int) *mc.Scenario {
+	a, b := concReqs[i], concReqs[j]
+	return &mc.Scenario{
+		Name:     fmt.Sprintf("logger %s %s%s || %s %s%s", a.method, a.host, a.path, b.method, b.host, b.path),
+		Describe: "two threads each serve one request through the same Logger middleware; scheduling points in the client-IP resolver, in the slog handler's Enabled and Handle and inside the route handler",
+		Build: func() *mc.Instance {
+			var recs []rec
+			res := fox.ClientIPResolverFunc(func(c fox.Context) (*net.IPAddr, error) {
+				vs.Step("resolver")
+				h, _, _ := net.SplitHostPort(c.Request().RemoteAddr)
+				return &net.IPAddr{IP: net.ParseIP(h)}, nil
+			})
+			f, err := fox.New(fox.WithClientIPResolver(res), fox.WithMiddleware(fox.LoggerWithHandler(stepCapture{&recs})))
+			if err != nil {
+				panic(err)
+			}
+			for _, q := range concReqs[:3] {
+				q := q
+				f.MustHandle(q.method, q.host+q.path, func(c fox.Context) {
+					vs.Step("handler")
+					if q.location != "" {
+						c.SetHeader("Location", q.location)
+					}
+					c.Writer().WriteHeader(q.status)
+				})
+			}
+			serve := func(q concReq) func() {
+				return func() {
+					rq := fx.Req(q.method, q.host, q.path)
+					rq.RemoteAddr = q.remote
+					f.ServeHTTP(fx.NewRW(), rq)
+				}
+			}
+			return &mc.Instance{
+				Bodies: []func(){serve(a), serve(b)},
+				Check: func(x *mc.Exec) (string, string, string) {
+					if x.S.Deadlock {
+						return "deadlock", "deadlock", x.S.DeadInfo
+					}
+					for t := 0; t < 2; t++ {
+						if pv, stk := x.S.PanicOf(t); pv != nil {
+							return "panic", "panic", fmt.Sprintf("%v\n%s", pv, mc.NormStack(stk, 10))
+						}
+					}
+					if len(recs) != 2 {
+						return "count", "record-count", fmt.Sprintf("%d records for 2 requests", len(recs))
+					}
+					order := recs[0].msg
+					for _, q := range []concReq{a, b} {
+						ip, _, _ := net.SplitHostPort(q.remote)
+						n := 0
+						for _, rc := range recs {
+							if rc.msg != ip {
+								continue
+							}
+							n++
+							lvl, _ := level(q.status)
+							if rc.attrs["status"] != fmt.Sprint(q.status) || rc.attrs["method"] != q.method || rc.attrs["host"] != q.host || rc.attrs["path"] != q.path || rc.level != lvl || rc.attrs["location"] != q.location {
+								return "mixed", "record-mixes-requests", fmt.Sprintf("the record of the request from %s (%s %s%s -> %d) carries level=%v attrs=%v", ip, q.method, q.host, q.path, q.status, rc.level, rc.attrs)
+							}
+						}
+						if n != 1 {
+							return "count", "record-count", fmt.Sprintf("%d records carry the client address %s, want 1 (records: %v)", n, ip, recs)
+						}
+					}
+					return "ok first=" + order, "", ""
+				},
+			}
+		},
+	}
+}
+
+func concScenarios() []*mc.Scenario {
+	var out []*mc.Scenario
+	for i := range concReqs {
+		for j := i + 1; j < len(concReqs); j++ {
+			out = append(out, concScenario(i, j))
+		}
+	}
+	return out
+}
+
 func init() {
 	mc.Register(&mc.Check{
 		ID:    "C20",
 		Level: "exploration",
 		Rule: "complete product of global resolver configuration x (previous request kind, request kind) x remote address, with the route handler sweeping every status 100..999 and the other behaviours; each request is served with and without the Logger (differential) and the single captured record is compared with a record model; " +
-			"non-trivial = the request follows another request on the recycled context, or the behaviour is not a plain status",
+			"plus all interleavings up to a preemption bound of two requests inside one Logger instance (scheduling points in the resolver, the slog handler and the route handler): every record must describe one request only; non-trivial = the request follows another request on the recycled context, or the behaviour is not a plain status",
 		Assumptions: []string{
 			"level is only judged for statuses 200..599; for an unparsable remote address only 'exactly one record with the right status and level' is demanded",
 			"the resolver in force is the route's inside route handlers and the router-wide one in every other handler",
 		},
-		WorkerInit: func() { mc.DeterministicPools() },
-		Parts: []mc.Part{{Name: "records", Run: run, Replay: func(c *mc.Ctx, raw json.RawMessage) string {
+		Parts: []mc.Part{{Name: "records", Run: func(c *mc.Ctx, r *mc.Result) {
+			un := mc.DeterministicPools()
+			defer un()
+			run(c, r)
+		}, Replay: func(c *mc.Ctx, raw json.RawMessage) string {
+			un := mc.DeterministicPools()
+			defer un()
 			var cs Case
 			if err := json.Unmarshal(raw, &cs); err != nil {
 				return "bad case"
@@ -394,7 +519,16 @@ func init() {
 				}
 			}
 			return ""
-		}}},
+		}}, {Name: "concurrent", Run: func(c *mc.Ctx, r *mc.Result) {
+			bound := -1 // thorough: every interleaving
+			if c.Quick() {
+				bound = 2
+			}
+			for _, sc := range concScenarios() {
+				mc.Explore(c, r, "concurrent", sc, mc.ExploreOpts{Bound: bound})
+			}
+			mc.CountNontrivial(r)
+		}, Replay: func(c *mc.Ctx, raw json.RawMessage) string { return mc.ReplaySched(concScenarios(), raw) }}},
 	})
 }
 
